@@ -197,6 +197,19 @@ theorem C18_remove_refuses_iff {nb : Nat} {m : Map X} (h : WF nb m) (d : Nat) (h
     cases hu : m.unused d <;> simp
   · simp [hf]
 
+/-- **C18, refusal inside one transaction**: `remove_free_dart_transac` answers whether the dart was ALREADY
+    removed as the transaction sees it — a second removal of the same dart composed in the same transaction is
+    told `true` (refused) whatever the first one answered, and the flag is set once -/
+theorem C18_remove_twice_in_one_transaction (m : Map X) (d : Nat) (hd : m.okU d = true) :
+    run (do let a ← removeFreeDartTx (X := X) d; let b ← removeFreeDartTx d; pure (a, b)) m =
+      (.ok (m.unused d, true), m.setU d true) := by
+  have h2 : (m.setU d true).okU d = true := by rw [Map.okU_setU]; exact hd
+  have h3 : (m.setU d true).unused d = true := by rw [Map.unused_setU]; simp [hd]
+  have h4 : (m.setU d true).setU d true = m.setU d true := by
+    unfold Map.setU; simp [wr]
+  simp only [removeFreeDartTx, Prog.bind_eq, Prog.pure_eq, Prog.bind_assoc, Prog.ret_bind, run_rU, run_wU, hd, h2, h3, h4,
+    if_true, run_ret]
+
 /-- a removed dart stays out of every cell iterator (they filter on the flag) -/
 theorem C18_iter_excludes_removed (m : Map X) (idf : Nat → P X Nat) (x : Nat)
     (hx : x ∈ iterCells m idf) : m.unused x = false ∧ x ≠ 0 ∧ x < m.n := by
@@ -236,6 +249,7 @@ theorem C18_D10_reused_slot_keeps_stale_value :
 
 /-! non-vacuity -/
 example : Alloc 3 C01.exMap := ⟨by decide, by decide⟩
+example : C01.exMap.okU 1 = true := by decide   -- the hypothesis of C18_remove_twice_in_one_transaction is satisfiable
 example : C01.exMap.insertFreeDart.1 = 8 := by decide
 example : (C01.exMap.addFreeDarts 2).1 = 9 := by decide
 
